@@ -392,7 +392,9 @@ class CombinatorStep(BaseStep):
                             logger.debug(
                                 f"Step {self.name} received token {token.tag} on port {task_name}"
                             )
-                        status = Status.COMPLETED
+                        # Do not forget a failure (or cancellation) already reported by another port
+                        if status == Status.SKIPPED:
+                            status = Status.COMPLETED
                         async for schema in cast(
                             AsyncIterable,
                             self.combinator.combine(task_name, token),
